@@ -683,3 +683,39 @@ func VerifH06q() {
 		vReach("type-list-of-65536-bytes-and-more")
 	}
 }
+
+// ---------------------------------------------------------------------------
+// H04m — long client-chosen names in error replies (C04, C02, C06): a Bind
+// (or a Describe, or an Execute) names a statement or portal that does not exist;
+// the name is 4070..4077 bytes of 'a' followed by one to three arbitrary
+// non-zero bytes (UTF-8 continuation bytes, lead bytes, anything), so that the
+// error text crosses 4096 bytes at every alignment. The reply is one well-formed
+// ErrorResponse, nothing panics, the Sync behind it is answered.
+// ---------------------------------------------------------------------------
+func VerifH04m() {
+	n := 4070 + vChoose(8)
+	tail := nondetBytes(1 + vChoose(3))
+	vAssume(vNoNUL(tail))
+	name := make([]byte, n)
+	for i := range name {
+		name[i] = 'a'
+	}
+	name = vCat(name, tail)
+	var msg []byte
+	switch vChoose(3) {
+	case 0:
+		msg = vMsgBytes('B', vCat(vCStr(nil), vCStr(name), vU16(0), vU16(0), vU16(0)))
+	case 1:
+		msg = vMsgBytes('D', vCat([]byte{'S'}, vCStr(name)))
+	default:
+		msg = vMsgBytes('E', vCat(vCStr(name), vU32(0)))
+	}
+	w := vNewWorld(vCat(msg, vMsgBytes('S', nil)), 8192)
+	w.parseMenu = -2
+	got, err := w.step()
+	vAssert("unknown-name-is-one-ErrorResponse", err == nil && got == "E")
+	got, err = w.step()
+	vAssert("sync-answered", err == nil && got == "Z")
+	vAssert("wire-wellformed", vWireOK(w.conn.out))
+	vReach("error-text-longer-than-4096-bytes")
+}
